@@ -22,8 +22,15 @@ fn main() {
     }
     let rc = match args[1].as_str() {
         "c05_lost_wakeup" => c05_lost_wakeup(args.get(2).map(|s| s.as_str()).unwrap_or("")),
+        "c02_decoder_memo" => c02_decoder_memo(),
+        "c02_truncated_data" => c02_truncated_data(),
+        "c11_static_find" => c11_static_find(
+            args.get(2).map(|s| s.as_str()).unwrap_or(""),
+            args.get(3).map(|s| s.as_str()).unwrap_or(""),
+        ),
         "c03_empty_data" => c03_empty_data(),
         "c05_second_error" => c05_second_error(),
+        "c07_reset_inside_frame" => c07_reset_inside_frame(),
         "c08_shutdown_sequence" => c08_shutdown_sequence(
             args.get(2).and_then(|s| s.parse().ok()).unwrap_or(2),
             args.get(3).and_then(|s| s.parse().ok()).unwrap_or(0),
@@ -410,4 +417,186 @@ fn c03_empty_data() -> i32 {
     std::mem::forget(stream);
     std::mem::forget(conn);
     rc
+}
+
+
+/// Server: the client's control stream delivers SETTINGS, then an unknown frame (type 0x21, 40 payload bytes) whose
+/// bytes arrive in two transport chunks with a poll in between, immediately followed by GOAWAY(0) in the second chunk.
+/// Chunking must not matter: the GOAWAY is complete in the buffer and must be acted upon, so with no request in flight
+/// accept reports 'no more requests'. Reproduces (exit 1) if the accept call stays Pending.
+fn c02_decoder_memo() -> i32 {
+    let mock = Mock::new(true);
+    let mut conn: h3::server::Connection<Mock, Bytes> =
+        drive(h3::server::builder().build(mock.clone()), 10).expect("build completes").expect("build ok");
+    let mut first = vec![0x00, 0x04, 0x00, 0x21, 40];
+    first.extend_from_slice(&[0xaa; 10]);
+    let mut second = vec![0xaa; 30];
+    second.extend_from_slice(&[0x07, 0x01, 0x00]);
+    mock.push_uni(2, vec![RecvEvent::Data(first), RecvEvent::Pending, RecvEvent::Pending, RecvEvent::Pending, RecvEvent::Data(second)]);
+    let (_c, waker) = counting_waker();
+    let mut cx = Context::from_waker(&waker);
+    let mut last = String::new();
+    for i in 0..10 {
+        let r = conn.poll_accept_request_stream(&mut cx);
+        last = match &r {
+            Poll::Pending => "Pending".to_string(),
+            Poll::Ready(Ok(None)) => "Ready(Ok(None))".to_string(),
+            Poll::Ready(Ok(Some(_))) => "Ready(Ok(Some))".to_string(),
+            Poll::Ready(Err(e)) => format!("Ready(Err({:?}))", e),
+        };
+        println!("poll {}: {}", i, last);
+        if let Poll::Ready(Ok(Some(s))) = r {
+            std::mem::forget(s);
+        }
+        if last != "Pending" {
+            break;
+        }
+    }
+    std::mem::forget(conn);
+    if last != "Ready(Ok(None))" {
+        println!("REPRODUCED: the GOAWAY that follows an unknown frame delivered in two chunks is not acted upon ({})", last);
+        1
+    } else {
+        0
+    }
+}
+
+
+/// Server request stream: HEADERS, then a DATA frame announcing 4 payload bytes of which only "ab" arrive; the
+/// transport then reports the end of the stream in a later poll (chunk boundary == truncation point). The cut-off
+/// frame must be reported as an error (H3_FRAME_ERROR); reproduces (exit 1) if recv_data reports a clean end of body.
+fn c02_truncated_data() -> i32 {
+    let mock = Mock::new(true);
+    let mut conn: h3::server::Connection<Mock, Bytes> =
+        drive(h3::server::builder().build(mock.clone()), 10).expect("build completes").expect("build ok");
+    let block = [0x00u8, 0x00, 0xd1, 0xd7, 0xc1, 0x50, 0x01, b'a'];
+    let mut bytes = vec![0x01, block.len() as u8];
+    bytes.extend_from_slice(&block);
+    bytes.extend_from_slice(&[0x00, 0x04, b'a', b'b']); // DATA, declared length 4, two bytes present
+    mock.push_bidi(0, vec![RecvEvent::Data(bytes), RecvEvent::Pending, RecvEvent::Pending, RecvEvent::Pending, RecvEvent::Fin]);
+    let resolver = match drive(conn.accept(), 10) {
+        Some(Ok(Some(r))) => r,
+        _ => {
+            println!("request not accepted");
+            return 0;
+        }
+    };
+    let (_req, mut stream) = match drive(resolver.resolve_request(), 10) {
+        Some(Ok(x)) => x,
+        _ => {
+            println!("request headers not resolved");
+            return 0;
+        }
+    };
+    let (_c, waker) = counting_waker();
+    let mut cx = Context::from_waker(&waker);
+    let mut outcome = String::new();
+    for i in 0..6 {
+        let r = stream.poll_recv_data(&mut cx);
+        outcome = match &r {
+            Poll::Pending => "Pending".to_string(),
+            Poll::Ready(Ok(Some(_))) => "chunk".to_string(),
+            Poll::Ready(Ok(None)) => "end of body".to_string(),
+            Poll::Ready(Err(e)) => format!("error {:?}", e),
+        };
+        println!("recv_data poll {}: {}", i, outcome);
+        if outcome == "end of body" || outcome.starts_with("error") {
+            break;
+        }
+    }
+    std::mem::forget(stream);
+    std::mem::forget(conn);
+    if outcome == "end of body" {
+        println!("REPRODUCED: a DATA payload cut off by the end of the stream is reported as a clean end of body");
+        1
+    } else {
+        0
+    }
+}
+
+/// QPACK encoder look-up: encode the single field (name, value) with encode_stateless and decode the bytes again with
+/// decode_stateless (whose static table the Kani harnesses compare with RFC 9204 Appendix A row by row). Reproduces
+/// (exit 1) if the decoded field differs from the input.
+fn c11_static_find(name: &str, value: &str) -> i32 {
+    use h3::qpack::{decode_stateless, encode_stateless, HeaderField};
+    let field = HeaderField::new(name.as_bytes().to_vec(), value.as_bytes().to_vec());
+    let mut block = Vec::new();
+    if encode_stateless(&mut block, vec![field.clone()]).is_err() {
+        println!("encode failed");
+        return 0;
+    }
+    let mut r = &block[..];
+    match decode_stateless(&mut r, u64::MAX) {
+        Ok(d) if d.fields.len() == 1 && d.fields[0] == field => {
+            println!("round trip ok for {:?}: {:?}", name, value);
+            0
+        }
+        other => {
+            println!("encoded {:?}: {:?} as {:02x?}; decodes to {:?}", name, value, block, other.map(|d| d.fields));
+            println!("REPRODUCED: the field section h3 wrote does not decode to the input field");
+            1
+        }
+    }
+}
+
+
+/// Server request stream: HEADERS, then a DATA frame announcing 8 bytes of which 3 arrive with the header; the peer
+/// then RESETs the stream (code 0x10c H3_REQUEST_CANCELLED). The reset is a fault confined to this request: recv_data
+/// must end in StreamError::RemoteTerminate with the peer's code and the connection must stay healthy. Reproduces
+/// (exit 1) if a connection error is raised or another error is reported.
+fn c07_reset_inside_frame() -> i32 {
+    let mock = Mock::new(true);
+    let mut conn: h3::server::Connection<Mock, Bytes> =
+        drive(h3::server::builder().build(mock.clone()), 10).expect("build completes").expect("build ok");
+    let shared = conn.inner.shared.clone();
+    let block = [0x00u8, 0x00, 0xd1, 0xd7, 0xc1, 0x50, 0x01, b'a'];
+    let mut bytes = vec![0x01, block.len() as u8];
+    bytes.extend_from_slice(&block);
+    bytes.extend_from_slice(&[0x00, 0x08, b'a', b'b', b'c']);
+    mock.push_bidi(0, vec![RecvEvent::Data(bytes), RecvEvent::Reset(0x10c)]);
+    let resolver = match drive(conn.accept(), 10) {
+        Some(Ok(Some(r))) => r,
+        _ => {
+            println!("request not accepted");
+            return 0;
+        }
+    };
+    let (_req, mut stream) = match drive(resolver.resolve_request(), 10) {
+        Some(Ok(x)) => x,
+        _ => {
+            println!("request headers not resolved");
+            return 0;
+        }
+    };
+    let (_c, waker) = counting_waker();
+    let mut cx = Context::from_waker(&waker);
+    let mut outcome = String::new();
+    let mut ok = false;
+    for i in 0..6 {
+        let r = stream.poll_recv_data(&mut cx);
+        outcome = match &r {
+            Poll::Pending => "Pending".to_string(),
+            Poll::Ready(Ok(Some(_))) => "chunk".to_string(),
+            Poll::Ready(Ok(None)) => "end of body".to_string(),
+            Poll::Ready(Err(StreamError::RemoteTerminate { code })) => {
+                ok = code.value() == 0x10c;
+                format!("RemoteTerminate({:#x})", code.value())
+            }
+            Poll::Ready(Err(e)) => format!("error {:?}", e),
+        };
+        println!("recv_data poll {}: {}", i, outcome);
+        if outcome != "chunk" && outcome != "Pending" {
+            break;
+        }
+    }
+    let conn_err = shared.get_conn_error().is_some();
+    println!("connection error stored: {}", conn_err);
+    std::mem::forget(stream);
+    std::mem::forget(conn);
+    if !ok || conn_err {
+        println!("REPRODUCED: the peer's RESET of one request is not reported as RemoteTerminate with its code / harms the connection");
+        1
+    } else {
+        0
+    }
 }
